@@ -7,7 +7,7 @@
 (* equal the abstract length (consumed slots reference nothing).               *)
 EXTENDS TraceLib
 
-VARIABLES lo, hi, cap, l
+VARIABLES lo, hi, cap, unit, l
 
 RBig == INSTANCE RingBig WITH MaxCap <- 0, MaxLo <- 0, x <- 0
 
@@ -21,21 +21,24 @@ CallOf(e) ==
       [] OTHER          -> [op |-> e.op]
 
 Matches(e, res) == \A f \in DOMAIN res : Has(e, f) /\ e[f] = res[f]
+\* elements of size zero (RingBuffer[struct{}]): values cannot be told apart - counts, errors and panics are compared
+ValueFields == {"v", "first", "last", "consec"}
+MatchesUnit(e, res) == \A f \in DOMAIN res \ ValueFields : Has(e, f) /\ e[f] = res[f]
 
-Init == lo = 1 /\ hi = 1 /\ cap = 0 /\ l = 1
+Init == lo = 1 /\ hi = 1 /\ cap = 0 /\ unit = FALSE /\ l = 1
 
 New == /\ l <= Len(Trace) /\ Ev.op = "New"
-       /\ lo' = Ev.first /\ hi' = Ev.first /\ cap' = Ev.cap /\ l' = l + 1
+       /\ lo' = Ev.first /\ hi' = Ev.first /\ cap' = Ev.cap /\ unit' = Ev.unit /\ l' = l + 1
 
 Call == /\ l <= Len(Trace) /\ Ev.op # "New"
         /\ ~Has(Ev, "crash")
         /\ LET a == RBig!BigApply(lo, hi, cap, CallOf(Ev))
-           IN /\ Matches(Ev, a.res)
-              /\ Ev.nz = a.hi - a.lo
+           IN /\ IF unit THEN MatchesUnit(Ev, a.res) ELSE Matches(Ev, a.res)
+              /\ unit \/ Ev.nz = a.hi - a.lo
               /\ lo' = a.lo /\ hi' = a.hi
-        /\ cap' = cap /\ l' = l + 1
+        /\ cap' = cap /\ unit' = unit /\ l' = l + 1
 
 Next == New \/ Call
-Spec == Init /\ [][Next]_<<lo, hi, cap, l>>
+Spec == Init /\ [][Next]_<<lo, hi, cap, unit, l>>
 Accepted == AcceptByDiameter
 =============================================================================
